@@ -5,6 +5,7 @@ import (
 	"context"
 	"fmt"
 	"go/types"
+	"sync"
 	"os"
 	"os/exec"
 	"path/filepath"
@@ -187,6 +188,23 @@ func (e *Engine) buildPrelude(solver string) string {
 	e.mu.Unlock()
 	fmt.Fprintf(&sb, "(define-fun ptrelem ((k Int)) Int %s)\n", chain)
 	sb.WriteString("(define-fun iface_wf ((v Iface)) Bool (and (>= (ityp v) 0) (=> (= (ityp v) 0) (= v niliface)) (=> (> (ptrelem (ityp v)) 0) (or (= (iloc v) nullloc) (and (= (ltyp (iloc v)) (ptrelem (ityp v))) (= (lcell (iloc v)) 0) (> (lref (iloc v)) 0))))))\n")
+	// okslice_<k>(tag): an object of allocation type `tag` may back a slice of element type k (it is not one of the
+	// known struct types that hold no cell of that type)
+	e.mu.Lock()
+	for k, el := range e.elemTypes {
+		var bad []string
+		for _, tg := range e.structTags {
+			if !typeContains(e.tagTy[tg], el, 0) {
+				bad = append(bad, fmt.Sprintf("(= t %d)", tg))
+			}
+		}
+		if len(bad) == 0 {
+			fmt.Fprintf(&sb, "(define-fun okslice_%d ((t Int)) Bool true)\n", k)
+		} else {
+			fmt.Fprintf(&sb, "(define-fun okslice_%d ((t Int)) Bool (not (or %s)))\n", k, strings.Join(bad, " "))
+		}
+	}
+	e.mu.Unlock()
 	// spec functions
 	for _, n := range e.specs.SFOrder {
 		sf := e.specs.SFuncs[n]
@@ -199,10 +217,14 @@ func (e *Engine) buildPrelude(solver string) string {
 	// string literals
 	e.mu.Lock()
 	lits := append([]string{}, e.litOrder...)
+	litName := map[string]string{}
+	for _, s := range lits {
+		litName[s] = e.lits[s]
+	}
 	e.mu.Unlock()
 	var names []string
 	for _, s := range lits {
-		n := e.lits[s]
+		n := litName[s]
 		names = append(names, n)
 		fmt.Fprintf(&sb, "(declare-const %s GStr)\n(assert (= (slen_s %s) %d))\n", n, n, len(s))
 		if len(s) <= 48 {
@@ -269,8 +291,11 @@ func runSolver(solver, file string, timeout time.Duration) solverResult {
 }
 
 var scratchDir string
+var scratchMu sync.Mutex
 
 func scratch() string {
+	scratchMu.Lock()
+	defer scratchMu.Unlock()
 	if scratchDir == "" {
 		d, err := os.MkdirTemp("", "govc-")
 		if err != nil {
